@@ -332,3 +332,209 @@ BASELINE_HANDLERS = {
     '_put_slice_MatchMapping__all', '_put_slice_Set_elts', '_put_slice_Tuple_elts',
     '_put_slice_With_AsyncWith_items', '_put_slice_arguments', '_put_slice_comprehension_ifs',
     '_put_slice_decorator_list', '_put_slice_pattern_attrlikes_patterns', '_put_slice_type_params'}
+
+
+# ---------------------------------------------------------------------------------------------------------------------
+# C07: "copying never disturbs the tree" as an all-paths frame obligation on the get handlers: with cut false, nothing
+# reachable from the SOURCE tree is written.  Structural: every statement that may mutate the source (store / delete
+# through a source name, a call of a (transitive, by-name) mutator on a source receiver or with the source as first
+# argument) is guarded by `cut` being true on every path, or is a call of a cut-aware helper that is handed the very
+# same `cut` value (the helper is then subject to the same obligation).
+
+SOURCE_NAMES = {'self', 'ast', 'body', 'body2', 'root', 'lines', 'parent', 'parenta'}
+CUT_AWARE = {'get_slice_sep', 'get_slice_nosep', 'get_slice_stmtlike', '_cut_or_copy_asts', '_cut_or_copy_asts2',
+             '_get_slice', '_get_one', 'get_slice', 'get'}
+
+
+# methods that write the objects handed to them (argument index), not their receiver
+MUTATES_ARGUMENT = {'_set_ctx': 1}
+
+
+class GuardAnalysis:
+    def __init__(self, fn, mutators, flag='cut'):
+        self.fn, self.mut, self.flag = fn, mutators, flag
+        self.problems = []
+        self.n_guarded = 0
+        self.n_aware = 0
+        self.sources = set(SOURCE_NAMES)
+        # locals bound to parts of the source tree:  x = self.a / ast.elts / getattr(ast, field) ...
+        for n in ast.walk(fn):
+            if isinstance(n, ast.Assign) and len(n.targets) == 1 and isinstance(n.targets[0], ast.Name):
+                b = self._base(n.value)
+                if b in self.sources and not isinstance(n.value, ast.Call):
+                    self.sources.add(n.targets[0].id)
+
+    @staticmethod
+    def _base(e):
+        while isinstance(e, (ast.Attribute, ast.Subscript)):
+            e = e.value
+        return e.id if isinstance(e, ast.Name) else None
+
+    def _is_flag_true(self, test):
+        """does `test` being true imply the flag is true?"""
+        if isinstance(test, ast.Name) and test.id == self.flag:
+            return True
+        if isinstance(test, ast.BoolOp) and isinstance(test.op, ast.And):
+            return any(self._is_flag_true(v) for v in test.values)
+        return False
+
+    def _is_flag_false(self, test):
+        """does `test` being true imply the flag is false?"""
+        if isinstance(test, ast.UnaryOp) and isinstance(test.op, ast.Not):
+            return isinstance(test.operand, ast.Name) and test.operand.id == self.flag
+        if isinstance(test, ast.BoolOp) and isinstance(test.op, ast.And):
+            return any(self._is_flag_false(v) for v in test.values)
+        return False
+
+    @staticmethod
+    def _exits(stmts):
+        return bool(stmts) and isinstance(stmts[-1], (ast.Return, ast.Raise, ast.Continue, ast.Break))
+
+    def _mutations(self, st):
+        """(description, node) for every possibly source-mutating thing directly in statement st (not in nested blocks)"""
+        out = []
+        nodes = []
+        if isinstance(st, (ast.If, ast.While)):
+            nodes = [st.test]
+        elif isinstance(st, ast.For):
+            nodes = [st.iter]
+        elif isinstance(st, ast.With):
+            nodes = [i.context_expr for i in st.items]
+        elif isinstance(st, ast.Try):
+            nodes = []
+        else:
+            nodes = [st]
+        for root in nodes:
+            for n in ast.walk(root):
+                if isinstance(n, (ast.Attribute, ast.Subscript)) and isinstance(n.ctx, (ast.Store, ast.Del)):
+                    if self._base(n) in self.sources:
+                        out.append((f'store through {self._base(n)}', n))
+                if isinstance(n, ast.Call):
+                    name = n.func.id if isinstance(n.func, ast.Name) else getattr(n.func, 'attr', '')
+                    recv = self._base(n.func.value) if isinstance(n.func, ast.Attribute) else None
+                    first = self._base(n.args[0]) if n.args else None
+                    on_source = (recv in self.sources) or (recv is None and first in self.sources)
+                    if name in MUTATES_ARGUMENT:     # the receiver is incidental: what is written is the given argument
+                        k = MUTATES_ARGUMENT[name]
+                        tgt = self._base(n.args[k]) if len(n.args) > k else None
+                        on_source = tgt in self.sources
+                    if not on_source:
+                        continue
+                    passes_flag = any(isinstance(a, ast.Name) and a.id == self.flag for a in n.args) or \
+                        any(isinstance(k.value, ast.Name) and k.value.id == self.flag for k in n.keywords)
+                    if name in CUT_AWARE and passes_flag:
+                        self.n_aware += 1
+                        continue
+                    if name in self.mut or name in ('append', 'extend', 'insert', 'pop', 'remove', 'clear', 'sort'):
+                        out.append((f'call {name}() on {recv or first}', n))
+        return out
+
+    def _block(self, stmts, guarded):
+        for i, st in enumerate(stmts):
+            for what, n in self._mutations(st):
+                if guarded:
+                    self.n_guarded += 1
+                else:
+                    self.problems.append(f'line {n.lineno}: {what} is reachable with {self.flag} false')
+            if isinstance(st, ast.If):
+                self._block(st.body, guarded or self._is_flag_true(st.test))
+                self._block(st.orelse, guarded or self._is_flag_false(st.test))
+                # `if not cut: return ...`  ->  the rest of the block runs only with cut true
+                if self._is_flag_false(st.test) and self._exits(st.body) and not st.orelse:
+                    guarded = True
+                if self._is_flag_true(st.test) and st.orelse and self._exits(st.orelse):
+                    guarded = True
+            elif isinstance(st, (ast.For, ast.While)):
+                self._block(st.body, guarded)
+                self._block(st.orelse, guarded)
+            elif isinstance(st, ast.With):
+                self._block(st.body, guarded)
+            elif isinstance(st, ast.Try):
+                self._block(st.body, guarded)
+                for h in st.handlers:
+                    self._block(h.body, guarded)
+                self._block(st.orelse, guarded)
+                self._block(st.finalbody, guarded)
+
+    def run(self):
+        self._block(self.fn.body, False)
+        return self.problems
+
+
+def c07_copy_frame(rep, prop='C07'):
+    import re
+    from pyvc import frontend
+    mut = transitive_mutators()
+    registered, skipped = [], []
+    targets = []
+    for modname, tables in (('fst_get_slice', ['_GET_SLICE_HANDLERS']), ('fst_get_one', ['_GET_ONE_HANDLERS'])):
+        mod = frontend.module(modname)
+        names = set()
+        for t in tables:
+            d = frontend.module_assign(modname, t)
+            for v in d.values:
+                for n in ast.walk(v):
+                    if isinstance(n, ast.Name) and n.id.startswith(('_get_', 'get_')):
+                        names.add(n.id)
+        names |= {'_cut_or_copy_asts', '_cut_or_copy_asts2', '_get_slice', '_get_one'}
+        funcs = {n.name: n for n in mod.tree.body if isinstance(n, ast.FunctionDef)}
+        for nm in sorted(names):
+            if nm in funcs:
+                targets.append((modname, nm, funcs[nm]))
+    for modname, nm in (('slice_exprlike', 'get_slice_sep'), ('slice_exprlike', 'get_slice_nosep'),
+                        ('slice_stmtlike', 'get_slice_stmtlike')):
+        mod = frontend.module(modname)
+        f = {n.name: n for n in mod.tree.body if isinstance(n, ast.FunctionDef)}.get(nm)
+        if f is not None:
+            targets.append((modname, nm, f))
+    for modname, nm, fn in targets:
+        argnames = [a.arg for a in fn.args.posonlyargs + fn.args.args + fn.args.kwonlyargs]
+        if 'cut' not in argnames:
+            skipped.append((nm, 'no cut parameter'))
+            continue
+        g = GuardAnalysis(fn, mut)
+        probs = g.run()
+        ident = f'{modname}:{nm}'
+        if probs and nm not in BASELINE_COPY_FRAME:
+            skipped.append((nm, probs[0][:90]))
+            continue
+        try:
+            loc = frontend.locate(ident)
+        except frontend.ExtractionError:
+            skipped.append((nm, 'not a live definition for this Python version'))
+            continue
+
+        class _S:
+            name = 'copy frame (structural): source mutations only under cut'
+            notes = f'{g.n_guarded} guarded mutation sites, {g.n_aware} cut-aware delegations'
+        rep.function(loc, _S)
+        name = f'{prop}.copy_frame.{nm}'
+        rep.other('structural', name, not probs,
+                  detail='; '.join(probs[:3]) or f'{g.n_guarded} possibly source-mutating statements, all guarded by cut; '
+                  f'{g.n_aware} delegations that hand cut on', key=name,
+                  replay={'function': ident, 'problems': probs[:10],
+                          'verifier_output': 'all-paths guardedness analysis (transitive by-name mutator set)'})
+        registered.append(nm)
+    for nm in sorted(BASELINE_COPY_FRAME - set(registered)):
+        rep.undecided(f'{prop}.copy_frame.{nm}', 'held on the pinned tree but can no longer be generated')
+    rep.extra['copy_frame_registered'] = len(registered)
+    rep.extra['copy_frame_not_registered'] = skipped[:60]
+    return registered, skipped
+
+
+# get handlers / helpers for which the obligation was generated and held on the pinned tree
+BASELINE_COPY_FRAME = {
+    '_cut_or_copy_asts', '_cut_or_copy_asts2', '_get_one', '_get_one_BoolOp_op', '_get_one_Compare',
+    '_get_one_Dict__all', '_get_one_JoinedStr_TemplateStr_values', '_get_one_MatchMapping__all',
+    '_get_one_arglike', '_get_one_arguments', '_get_one_arguments__all', '_get_one_constant',
+    '_get_one_constant_promote_true', '_get_one_conversion', '_get_one_ctx', '_get_one_default',
+    '_get_one_format_spec', '_get_one_identifier', '_get_one_identifier_promote_true',
+    '_get_one_pattern_attrlikes__attrs', '_get_one_stmtlike', '_get_slice', '_get_slice_Assign_targets',
+    '_get_slice_Boolop_values', '_get_slice_Call_ClassDef_keywords', '_get_slice_Delete_targets', '_get_slice_Dict__all',
+    '_get_slice_List_elts', '_get_slice_Tuple_elts',
+    '_get_slice_Global_Nonlocal_names', '_get_slice_ImportFrom_names', '_get_slice_Import_names',
+    '_get_slice_MatchOr_patterns', '_get_slice_MatchSequence_patterns', '_get_slice_NOT_IMPLEMENTED_YET',
+    '_get_slice_Set_elts', '_get_slice_With_AsyncWith_items', '_get_slice__slice',
+    '_get_slice_comprehension_ifs', '_get_slice_decorator_list', '_get_slice_generators',
+    '_get_slice_pattern_attrlikes__attrs', '_get_slice_pattern_attrlikes_patterns',
+    '_get_slice_stmtlike__body', '_get_slice_type_params', 'get_slice_nosep'}
